@@ -97,7 +97,7 @@ Definition step_spec (st : sdict) (o : op) : out * sdict :=
               match spec_key (prefix ++ fst kv) with
               | None => (s, true)
               | Some p => if ou && spec_contains p s then (s, false)
-                          else (spec_set p (user_node (snd kv)) s, false)
+                          else (spec_set p (node_of_val (snd kv)) s, false)   (* the items are user-visible already *)
               end) (spec_items false sd) (st, false) in
           (if failed then OutFail else OutUnit, st')
       | Leaf _ => (OutFail, st)
